@@ -1239,6 +1239,16 @@ def g(ctx):
 
 # ---------------------------------------------------------------------------
 # seeded faults (sensitivity self-test)
+@R.clause("C08.h", "notifications to an endpoint are not held back forever: a timed-out exchange leaves the exchange table, the backlog invariant holds (shared with C03.d / C14.a)")
+def h_shared(ctx):
+    """'A notification rendered at or after the last change is eventually sent' needs the message layer to release the
+    per-remote queue.  An independently written breaking change left the timed-out exchange of a CON notification in
+    _active_exchanges, so every later CON notification to that endpoint (after a re-registration) was queued for ever."""
+    from . import c03, c14
+    c03.retransmit_removes_exchange(ctx)
+    c14.a(ctx)
+
+
 F_IF = "aiocoap/interfaces.py"
 F_RES = "aiocoap/resource.py"
 F_PROTO = "aiocoap/protocol.py"
@@ -1293,3 +1303,5 @@ R.seed("C08.f", F_IF, "                servobs._trigger = asyncio.get_running_lo
 R.seed("C08.f", F_IF, "                if response is None:\n                    response = await self.render(pipe.request)\n", "                response = await self.render(pipe.request)\n", "triggered response always replaced by a rendering")
 R.seed("C08.f", F_IF, "                await servobs._trigger\n", "                await asyncio.sleep(0)\n", "loop does not wait for a trigger")
 R.seed("C08.g", F_PROTO, "        self._accepted = False\n", "        self._accepted = True\n", "declined observations are kept open (masked while C08.g is refuted on the analysed tree)")
+
+R.seed("C08.h", F_MM, "        messageerror_monitor, next_retransmission = self._active_exchanges.pop(key)\n        # this should be a no-op", "        messageerror_monitor, next_retransmission = self._active_exchanges[key]\n        # this should be a no-op", "timed-out exchange stays 'active': later CON notifications to that endpoint are queued for ever")
